@@ -116,9 +116,16 @@ def align_oracle(tier, seed):
             # roll a trace, never change its values, and it goes by the magnitude of the peak
             base = (-base0 if cplx == "neg" else base0 * np.exp(1j * (0.7 if cplx is True else float(cplx)))) if cplx else base0
             # the lag between any trace and the reference (last) trace is at most 2R
-            for R, label in ((max(1, n // 8), "lag<=n/4"), (n // 3, "lag>n/2")):
+            # the peak sits anywhere on the axis (not only at its centre) as long as every shifted copy stays clear of the ends
+            R0 = max(1, n // 8)
+            placed = [(R0, "lag<=n/4", off) for off in range(R0 + 4 - n // 2, n - R0 - 5 - n // 2 + 1)]
+            if (R0, "lag<=n/4", 0) not in placed:
+                placed.append((R0, "lag<=n/4", 0))
+            for R, label, off in placed + [(n // 3, "lag>n/2", 0)]:
                 shifts = list(range(-R, R + 1))
-                mat = np.stack([np.roll(base, s) for s in shifts], axis=1)          # (n, M)
+                if off and rng.random() < 0.5:
+                    shifts = shifts[::-1]                                          # the first trace leads or trails
+                mat = np.stack([np.roll(base, s + off) for s in shifts], axis=1)    # (n, M)
                 vals = mat if pos == 0 else mat.T
                 dims = ["f2", "k"] if pos == 0 else ["k", "f2"]
                 coords = [x, np.arange(len(shifts), dtype=float)] if pos == 0 else [np.arange(len(shifts), dtype=float), x]
@@ -128,7 +135,7 @@ def align_oracle(tier, seed):
                 got = np.asarray(r.values) if pos == 0 else np.asarray(r.values).T
                 if not all(np.allclose(got[:, j], got[:, 0]) for j in range(got.shape[1])):
                     key = "C14:ndalign-shifted-peaks-not-aligned:" + label
-                    fails.append({"key": key, "clause": key, "ops": [{"n": n, "dim_pos": pos, "max_shift": R}]})
+                    fails.append({"key": key, "clause": key, "ops": [{"n": n, "dim_pos": pos, "max_shift": R, "peak_offset_from_centre": off}]})
                 if not np.allclose(got[:, 0], mat[:, 0]):
                     fails.append({"key": "C14:ndalign-first-trace-touched", "clause": "C14:ndalign-first-trace-touched", "ops": [{"n": n, "complex": cplx}]})
                 # every output trace is a circular shift of the corresponding input trace (same multiset of values, rolled)
